@@ -639,6 +639,7 @@ Proof. destruct c; reflexivity. Qed.
 Theorem accepts_any_monitor c : accepts_any c = true -> monitor c = true.
 Proof.
   unfold accepts_any. destruct (accepts c) eqn:E; [intros _; apply accepts_monitor; exact E|].
+  destruct (strict (c_prim c) (c_pord c) && strict (c_fb c) (c_ford c)); [discriminate|].
   intro H. apply existsb_exists in H. destruct H as [po [_ H]]. apply existsb_exists in H. destruct H as [fo [_ H]].
   rewrite <- (monitor_orders c po fo). apply accepts_monitor. exact H.
 Qed.
